@@ -798,4 +798,120 @@ theorem body_no_select (d : Dec ε σ) (a : Acc ε σ) (it : Iter) (wk sg tr tw 
   obtain ⟨l, e, c⟩ := nosel_body d a it wk sg tr tw
   rw [e]; simp [selects, List.countP_append, c]
 
+/-! ## window-size signals -/
+
+def isResize : Ev ε → Bool
+  | .resize => true
+  | _ => false
+
+/-- number of `Resize` entries in a list of queue entries -/
+def resizesIn (l : List (Ev ε)) : Nat := l.countP isResize
+
+def isTermSig : Sig → Bool
+  | .term | .int | .quit => true
+  | _ => false
+
+/-- number of SIGWINCH in a pending set -/
+def winches (sigs : List Sig) : Nat := sigs.countP (fun s => s == .winch)
+
+theorem trk_resizes_mono {d : Dec ε σ} {a a' : Acc ε σ} (h : Trk d a a') : resizesIn a.pushed ≤ resizesIn a'.pushed := by
+  obtain ⟨ext, _, _, p, _⟩ := h
+  rw [p]; simp [resizesIn, List.countP_append]
+
+theorem phaseWrite_ok (a : Acc ε σ) (tw : Bool) (wr : IoAns) (h : wr ≠ .fail) :
+    (phaseWrite a tw wr).2 = none ∧ (phaseWrite a tw wr).1.pushed = a.pushed ∧
+      (phaseWrite a tw wr).1.st.sizeEsc = a.st.sizeEsc ∧ (phaseWrite a tw wr).1.st.evq = a.st.evq := by
+  cases tw with
+  | false => simp [phaseWrite]
+  | true =>
+    cases wr with
+    | fail => exact absurd rfl h
+    | again => simp [phaseWrite, Acc.sys, Acc.setWq]
+    | n k => simp [phaseWrite, Acc.sys, Acc.setWq]
+
+/-- ioctl size: without termination signals in the pending set and with `size()` working, the signal phase queues
+exactly one `Resize` per SIGWINCH, at the end of the queue, and reports no error -/
+theorem signalLoop_winch_ioctl (sigs : List Sig) (a : Acc ε σ) (hm : a.st.sizeEsc = false)
+    (hnt : ∀ s ∈ sigs, isTermSig s = false) :
+    (signalLoop a true sigs).2 = none ∧
+    (signalLoop a true sigs).1.pushed = a.pushed ++ List.replicate (winches sigs) .resize ∧
+    (signalLoop a true sigs).1.st.evq = a.st.evq ++ List.replicate (winches sigs) .resize ∧
+    (signalLoop a true sigs).1.st.sizeEsc = false := by
+  induction sigs generalizing a with
+  | nil => simp [signalLoop, winches, hm]
+  | cons s rest ih =>
+    have hrest : ∀ s ∈ rest, isTermSig s = false := fun x hx => hnt x (List.mem_cons_of_mem _ hx)
+    have hs := hnt s (List.mem_cons_self ..)
+    cases s with
+    | winch =>
+      simp only [signalLoop, hm, Bool.false_eq_true, ↓reduceIte]
+      obtain ⟨h1, h2, h3, h4⟩ := ih ((a.sys .ioctlSize).push .resize) (by simp [Acc.push, Acc.sys, hm]) hrest
+      refine ⟨h1, ?_, ?_, h4⟩
+      · rw [h2]; simp [Acc.push, Acc.sys, winches, List.replicate_succ]
+      · rw [h3]; simp [Acc.push, Acc.sys, winches, List.replicate_succ]
+    | term => simp [isTermSig] at hs
+    | int => simp [isTermSig] at hs
+    | quit => simp [isTermSig] at hs
+    | other =>
+      obtain ⟨h1, h2, h3, h4⟩ := ih a hm hrest
+      have hw : winches (Sig.other :: rest) = winches rest := by simp [winches]
+      simp only [signalLoop, hw]
+      exact ⟨h1, h2, h3, h4⟩
+
+/-- escape-sequence size: every SIGWINCH appends the size query at the END of the write queue (behind whatever
+output is pending); no event is queued by the signal phase itself -/
+theorem signalLoop_winch_escape (sigs : List Sig) (a : Acc ε σ) (hm : a.st.sizeEsc = true)
+    (hnt : ∀ s ∈ sigs, isTermSig s = false) (ok : Bool) :
+    (signalLoop a ok sigs).2 = none ∧
+    flat (signalLoop a ok sigs).1.st.wq = flat a.st.wq ++ (List.replicate (winches sigs) getTermSize).flatten ∧
+    (signalLoop a ok sigs).1.pushed = a.pushed := by
+  induction sigs generalizing a with
+  | nil => simp [signalLoop, winches]
+  | cons s rest ih =>
+    have hrest : ∀ s ∈ rest, isTermSig s = false := fun x hx => hnt x (List.mem_cons_of_mem _ hx)
+    have hs := hnt s (List.mem_cons_self ..)
+    cases s with
+    | winch =>
+      simp only [signalLoop, hm, ↓reduceIte]
+      obtain ⟨h1, h2, h3⟩ := ih (a.setWq (a.st.wq.write getTermSize)) (by simp [Acc.setWq, hm]) hrest
+      refine ⟨h1, ?_, by rw [h3]; rfl⟩
+      rw [h2]; simp [Acc.setWq, flat_write, winches, List.replicate_succ]
+    | term => simp [isTermSig] at hs
+    | int => simp [isTermSig] at hs
+    | quit => simp [isTermSig] at hs
+    | other =>
+      obtain ⟨h1, h2, h3⟩ := ih a hm hrest
+      have hw : winches (Sig.other :: rest) = winches rest := by simp [winches]
+      simp only [signalLoop, hw]
+      exact ⟨h1, h2, h3⟩
+
+/-- escape-sequence size: a size report among the decoded events queues `Resize` -/
+theorem pushDecoded_size (d : Dec ε σ) (es : List ε) (a : Acc ε σ) (hm : a.st.sizeEsc = true)
+    (e : ε) (he : e ∈ es) (hs : d.isSize e = true) :
+    resizesIn a.pushed + 1 ≤ resizesIn (pushDecoded d a es).pushed := by
+  induction es generalizing a with
+  | nil => cases he
+  | cons x xs ih =>
+    simp only [pushDecoded]
+    generalize ha1 : (if d.isSize x && a.st.sizeEsc then a.push .resize else a) = a1
+    generalize ha2 : (if (d.handle x).2.isEmpty then a1 else a1.setWq (a1.st.wq.write (d.handle x).2)) = a2
+    generalize ha3 : (if (d.handle x).1 then a2 else a2.push (.input x)) = a3
+    have m3 : a3.st.sizeEsc = a.st.sizeEsc ∧ resizesIn a1.pushed ≤ resizesIn a3.pushed := by
+      subst ha3 ha2
+      constructor
+      · subst ha1; split <;> split <;> split <;> simp [Acc.push, Acc.setWq]
+      · split <;> split <;> simp [Acc.push, Acc.setWq, resizesIn, List.countP_append]
+    have m1 : resizesIn a.pushed ≤ resizesIn a1.pushed := by
+      subst ha1; split <;> simp [Acc.push, resizesIn, List.countP_append]
+    obtain ⟨ext, _, p, _⟩ := pushDecoded_spec d xs a3
+    have mono : resizesIn a3.pushed ≤ resizesIn (pushDecoded d a3 xs).pushed := by
+      rw [p]; simp [resizesIn, List.countP_append]
+    rcases List.mem_cons.mp he with h | h
+    · subst h
+      have : resizesIn a1.pushed = resizesIn a.pushed + 1 := by
+        subst ha1; simp [hs, hm, Acc.push, resizesIn, List.countP_append, isResize]
+      omega
+    · have := ih a3 (by rw [m3.1, hm]) h
+      omega
+
 end SurfProofs.PollLoopLemmas
